@@ -1,6 +1,7 @@
 package lint
 
 import (
+	"fmt"
 	"go/token"
 
 	"golang.org/x/tools/go/ssa"
@@ -126,3 +127,95 @@ func ruleRecordOffset() *Rule {
 }
 
 var _ = token.ADD
+
+// ruleOffsetOwner: C20 OFFSET-OWNER.
+func ruleOffsetOwner() *Rule {
+	const id = "OFFSET-OWNER"
+	return &Rule{
+		ID: id,
+		Text: "LogEntry.Offset is the only field of a log entry that is rewritten after the entry was published (Compact re-positions surviving entries in place, under the node mutex that is the log's monitor), " +
+			"while entries are shared by pointer with requests that are converted and sent with the mutex released. " +
+			"Therefore Offset may be read or written only by code that runs inside the bundled log: methods of persistentLog and functions all of whose callers are such code (its record codec). " +
+			"Any other accessor (a converter, a helper shared with the wire format) is an unsynchronised access racing with compaction.",
+		Floor: 3,
+		Run: func(p *Program) []Obligation {
+			offFld := p.Field("LogEntry.Offset")
+			if offFld == nil {
+				return missing(id, "LogEntry.Offset")
+			}
+			internal := map[*ssa.Function]bool{}
+			for fn := range p.InScope {
+				if rv := fn.Signature.Recv(); rv != nil && isPtrToNamed(rv.Type(), "persistentLog") {
+					internal[fn] = true
+				}
+			}
+			for changed := true; changed; {
+				changed = false
+				for fn := range p.InScope {
+					if internal[fn] || fn.Parent() != nil {
+						continue
+					}
+					cs := p.Callers[fn]
+					if len(cs) == 0 {
+						continue
+					}
+					all := true
+					for _, c := range cs {
+						if !internal[EnclosingDeclared(c.Caller)] {
+							all = false
+						}
+					}
+					if all {
+						internal[fn] = true
+						changed = true
+					}
+				}
+			}
+			var out []Obligation
+			for _, fn := range p.SortedFuncs() {
+				n := 0
+				var pos string
+				for _, b := range fn.Blocks {
+					for _, in := range b.Instrs {
+						var fld interface{}
+						switch x := in.(type) {
+						case *ssa.FieldAddr:
+							fld = fieldOf(x.X.Type(), x.Field)
+						case *ssa.Field:
+							fld = fieldOf(x.X.Type(), x.Field)
+						}
+						if fld == offFld {
+							n++
+							if pos == "" {
+								pos = p.InstrPos(in)
+							}
+						}
+					}
+				}
+				if n == 0 {
+					continue
+				}
+				owner := EnclosingDeclared(fn)
+				ob := Obligation{Rule: id, Construct: "access to LogEntry.Offset in " + FuncName(owner), Pos: pos}
+				if internal[owner] {
+					ob.Verdict, ob.Detail = Discharged, fmt.Sprintf("%d access(es); runs only inside the bundled log (under its monitor)", n)
+				} else {
+					var callers []string
+					for _, c := range p.Callers[owner] {
+						if !internal[EnclosingDeclared(c.Caller)] {
+							callers = append(callers, FuncName(c.Caller)+" ("+p.InstrPos(c.Instr.(ssa.Instruction))+")")
+						}
+					}
+					if len(callers) == 0 {
+						callers = []string{"(an entry point: exported or without in-scope callers)"}
+					}
+					ob.Verdict = Violated
+					ob.Detail = "LogEntry.Offset is accessed by code that is reachable from outside the bundled log: entries are shared by pointer with in-flight requests that are converted with the node mutex released, and Compact rewrites Offset in place — an unsynchronised conflicting access"
+					ob.Facts = append([]string{"reached from outside the log through:"}, callers...)
+				}
+				out = append(out, ob)
+			}
+			return out
+		},
+	}
+}
